@@ -177,7 +177,7 @@ def finish(ctx, not_decided, assumptions):
 
 def run(prop, tier, rule_fn, not_decided, assumptions, configs=None):
     """Common driver: evaluate rule_fn(ctx, db) in every configuration of the tier."""
-    cfgs = configs or (["A", "B"] if tier == "quick" else ["A", "B", "C", "D"])
+    cfgs = configs or (["A", "E"] if tier == "quick" else ["A", "B", "C", "D", "E"])
     ctx = Ctx(prop, tier, cfgs)
     for c in cfgs:
         d = db(c)
